@@ -42,3 +42,4 @@ let () =
   Ops.register "gamma" (fun e -> of_formula (M.Gamma.gamma (formula e)));
   Ops.register "gamma_theory" (fun e -> of_theory (M.Gamma.gamma_theory (theory e)));
   Ops.register "sem_gamma" sem_gamma
+let init () = ()
